@@ -152,21 +152,31 @@ async fn run_case(behs: Vec<Beh>, ops: Vec<String>) -> String {
             "m" | "M" => {
                 let Some(j) = job.as_ref() else { continue };
                 let (j2, sh2, ps) = (j.clone(), sh.clone(), parts[1..].iter().map(|s| s.to_string()).collect::<Vec<_>>());
-                let slot: Arc<Mutex<Option<Option<Ticket>>>> = Default::default(); let s2 = slot.clone();
-                *PENDING.lock().unwrap() = Some(Box::new(move || { let p: Vec<&str> = ps.iter().map(|s| s.as_str()).collect(); *s2.lock().unwrap() = Some(api(&j2, &p, &sh2)); }));
+                // the awaiting task of `M:` polls its ticket at the moment of the send (inside the closure), as the model's `inject … true` does:
+                // polled only after the settle, a flag raised in between would be noticed late and the trace would show the ticket too late
+                type Fired = Option<Option<(Arc<WakeRec>, std::pin::Pin<Box<Ticket>>)>>;
+                let slot: Arc<Mutex<Fired>> = Default::default(); let s2 = slot.clone();
+                let (w, awaited) = (nticket, parts[0] == "M");
+                *PENDING.lock().unwrap() = Some(Box::new(move || {
+                    let p: Vec<&str> = ps.iter().map(|s| s.as_str()).collect();
+                    let t = api(&j2, &p, &sh2);
+                    *s2.lock().unwrap() = Some(match t {
+                        Some(t) if awaited => {
+                            let rec = Arc::new(WakeRec { w, sh: sh2.clone(), done: Default::default() });
+                            let waker = std::task::Waker::from(rec.clone());
+                            let mut fut = Box::pin(t);
+                            if fut.as_mut().poll(&mut std::task::Context::from_waker(&waker)).is_ready() { rec.resolve(); }
+                            Some((rec, fut))
+                        }
+                        _ => None,
+                    });
+                }));
                 settle().await;
                 *PENDING.lock().unwrap() = None;      // the task went idle without handling a control: nothing is sent
                 let fired = slot.lock().unwrap().take();
                 if let Some(t) = fired {
-                    let w = nticket; nticket += 1;
-                    if let (Some(t), "M") = (t, parts[0]) {
-                        let rec = Arc::new(WakeRec { w, sh: sh.clone(), done: Default::default() });
-                        let waker = std::task::Waker::from(rec.clone());
-                        let mut fut = Box::pin(t);
-                        if fut.as_mut().poll(&mut std::task::Context::from_waker(&waker)).is_ready() { rec.resolve(); }
-                        waiters.push((rec, fut));
-                        settle().await;
-                    }
+                    nticket += 1;
+                    if let Some(wf) = t { waiters.push(wf); settle().await; }
                 }
             }
             // `c:<k>`: another task awaits a CLONE of the ticket that waiter k holds (its own waker, polled once right now)
@@ -203,14 +213,14 @@ async fn run_case(behs: Vec<Beh>, ops: Vec<String>) -> String {
     for (r, fut) in waiters.iter_mut() { if r.done.load(std::sync::atomic::Ordering::SeqCst) { let wk = std::task::Waker::from(r.clone()); assert!(fut.as_mut().poll(&mut std::task::Context::from_waker(&wk)).is_ready(), "woken but not ready"); } }
     // canonical trace
     let log = sh.log.lock().unwrap().clone();
-    let mut out: Vec<String> = vec![]; let mut i = 0;
-    while i < log.len() {
-        let t = log[i].0; let mut j = i; while j < log.len() && log[j].0 == t { j += 1; }
-        let (mut tk, rest): (Vec<_>, Vec<_>) = log[i..j].iter().cloned().partition(|e| e.1.starts_with("tk:"));
-        tk.sort_by(|a, b| a.1.cmp(&b.1));
-        for e in rest.into_iter().chain(tk) { out.push(format!("{}:{}", e.0, e.1)); }
-        i = j;
+    // maximal runs of consecutive ticket entries are sorted; every other entry keeps its place (see Jm.sortTkRuns)
+    let mut out: Vec<String> = vec![]; let mut run: Vec<(u128, String)> = vec![];
+    for e in log.into_iter() {
+        if e.1.starts_with("tk:") { run.push(e); continue; }
+        run.sort(); for r in run.drain(..) { out.push(format!("{}:{}", r.0, r.1)); }
+        out.push(format!("{}:{}", e.0, e.1));
     }
+    run.sort(); for r in run.drain(..) { out.push(format!("{}:{}", r.0, r.1)); }
     { out.push(format!("unres:{}", unres.join(","))); out.join("|") }
 }
 
